@@ -18,6 +18,7 @@ META = {
 
 
 def run(s):
+    K.hostile_callers(s)
     K.suite_workload(s)
     K.fixtures_workload(s)
     K.collision_cases(s, 'story')
